@@ -4,6 +4,8 @@
 applies it to /repo, runs the quick check of every property anchored in a touched file (and of the rewrite's own
 property), and undoes it straight afterwards.  Keeps patch, meta and outcome under /verif/benign/<name>/.
 A green check is the expected outcome; a red one is examined by hand (false alarm => fix the machinery)."""
+import os as _os
+_os.environ['VERIF_EVIDENCE_DIR'] = '/verif/work/evidence_scratch'
 import json, os, re, shutil, subprocess, sys
 wt, idx, name = sys.argv[1:4]
 src = os.path.join(wt, 'benign', idx)
